@@ -1,7 +1,7 @@
 (* Proofs/MerkleRefine.v — the cursor machine of MerkleTree.populate_tree against the
    recursive traversal: exhaustive kernel evaluation on small trees (own file: the sweep
    takes a while).  hash256 := identity, i.e. merkle_parent = concatenation, and the
-   supplied hashes are the distinct one-byte strings [1], [2], ... so that every node
+   supplied hashes are the distinct 32-byte strings 32*[1], 32*[2], ... so that every node
    value records exactly which hashes were combined in which order. *)
 From V Require Import Base.Prelude Base.Ints Model.Merkle Model.MerkleBlock.
 
@@ -21,7 +21,8 @@ Fixpoint bit_strings (k : nat) : list (list Z) :=
   end.
 Definition bit_strings_upto (L : nat) : list (list Z) := flat_map bit_strings (seq 0 (S L)).
 
-Definition sym_hashes (nh : nat) : list bytes := map (fun i => [Z.of_nat i + 1]) (seq 0 nh).
+(* 32 bytes each, as populate_tree requires since 5e35f6e: the i-th hash is 32 times the byte i+1 *)
+Definition sym_hashes (nh : nat) : list bytes := map (fun i => repeatz (Z.of_nat i + 1) 32) (seq 0 nh).
 
 Fixpoint lbeq (a b : list bytes) : bool :=
   match a, b with
